@@ -7,6 +7,7 @@ of merit); Python converts them to float and compares within a relative toleranc
 """
 import math
 import zlib
+from concurrent.futures import ThreadPoolExecutor
 from fractions import Fraction
 
 import numpy as np
@@ -36,32 +37,39 @@ def emit_cfg(depth):
 def model_check(chk, depth, clauses, tag):
     """B1 on MC_PowerLedger with the given clause lines; vacuity: witnesses reachable here, every action taken is
     checked on the emitted behaviours (emitted_behaviours)"""
-    r = tlc.run('MC_PowerLedger', cfg_text=ledger_cfg(depth, clauses), timeout=3000, tag=f'{tag}-mc')
+    witnesses = ('WitnessMuxAfterOps', 'WitnessNoiseInBand', 'WitnessInterleavedMux', 'WitnessThreeParts')
+    with ThreadPoolExecutor(max_workers=len(witnesses)) as pool:      # the short witness runs overlap the main run
+        ws = {w: pool.submit(tlc.run, 'MC_PowerLedger', cfg_text=ledger_cfg(4, [f'INVARIANT {w}']), timeout=600,
+                             workers=1, tag=f'{tag}-witness') for w in witnesses}
+        r = tlc.run('MC_PowerLedger', cfg_text=ledger_cfg(depth, clauses), timeout=3000, tag=f'{tag}-mc')
     chk.add_mc(f'MC_PowerLedger depth={depth} [{len(clauses)} clauses]', r)
-    for w in ('WitnessMuxAfterOps', 'WitnessNoiseInBand', 'WitnessInterleavedMux', 'WitnessThreeParts'):
-        rw = tlc.run('MC_PowerLedger', cfg_text=ledger_cfg(4, [f'INVARIANT {w}']), timeout=600, tag=f'{tag}-witness')
-        if rw.violated != w:
+    for w, fut in ws.items():
+        if fut.result().violated != w:
             raise Machinery(f'vacuous model: {w} is not reachable')
     chk.exhaustive = True
     return r
 
 
 def emitted_behaviours(chk, emit_depth, sim_num, sim_depth, tag):
-    r2 = tlc.run('MC_PowerLedgerEmit', cfg_text=emit_cfg(emit_depth), timeout=1800, tag=f'{tag}-emit')
+    with ThreadPoolExecutor(max_workers=1) as pool:                  # the sampling run overlaps the exhaustive one
+        sim = pool.submit(tlc.run, 'MC_PowerLedgerEmit', cfg_text=emit_cfg(sim_depth), simulate=f'num={sim_num}',
+                          depth=sim_depth + 1, seed=chk.seed + 1, workers=1, timeout=1800, tag=f'{tag}-sim')
+        r2 = tlc.run('MC_PowerLedgerEmit', cfg_text=emit_cfg(emit_depth), timeout=1800, tag=f'{tag}-emit')
     chk.add_mc(f'MC_PowerLedgerEmit MaxDepth={emit_depth}', r2)
     out = list(r2.emitted)
     taken = {s['op'] for h in out for s in h}
     if taken != {'Scale', 'AddASE', 'AddNLI', 'Demux', 'Mux'}:
         raise Machinery(f'vacuous model: only the actions {sorted(taken)} are taken up to depth {emit_depth}')
-    r3 = tlc.run('MC_PowerLedgerEmit', cfg_text=emit_cfg(sim_depth), simulate=f'num={sim_num}',
-                 depth=sim_depth + 1, seed=chk.seed + 1, workers=1, timeout=1800, tag=f'{tag}-sim')
+    r3 = sim.result()
     if r3.violated or not r3.emitted:
         raise Machinery(f'simulation run failed: {r3.error}\n{r3.out[-1500:]}')
     return out + r3.emitted
 
 
 # --------------------------------------------------------------------------------------------- real-code side (B2)
-SPACING = 50e9
+SPACING = 100e9
+BAUD = [32e9, 64e9, 90e9]
+SLOT = [50e9, 75e9, 100e9]
 F1 = 193.1e12
 
 
@@ -70,10 +78,12 @@ def fr(q):
 
 
 def launch_si(powers):
+    """the three model channels as carriers of DIFFERENT symbol rates and slot widths (the ledger laws do not depend on
+    them; nothing in the code may either)"""
     from gnpy.core.info import create_arbitrary_spectral_information
     n = len(powers)
     return create_arbitrary_spectral_information(frequency=[F1 + SPACING * k for k in range(n)],
-                                                 pch=[float(p) for p in powers], baud_rate=32e9, slot_width=SPACING,
+                                                 pch=[float(p) for p in powers], baud_rate=BAUD[:n], slot_width=SLOT[:n],
                                                  tx_osnr=40.0, tx_power=[float(p) for p in powers], roll_off=0.15,
                                                  label=[f'ch{k + 1}' for k in range(n)])
 
